@@ -102,6 +102,7 @@ type WorkerOut struct {
 	Distinct   int               `json:"distinct_local"`
 	WallS      float64           `json:"wall_s"`
 	Complete   bool              `json:"complete"`
+	Truncated  bool              `json:"truncated,omitempty"` // stopped before VERIF_TO because the process had grown too large: the driver continues from To in a fresh one
 	ReplayOK   *bool             `json:"replay_ok,omitempty"`
 	ReplayMsg  string            `json:"replay_msg,omitempty"`
 }
@@ -398,6 +399,7 @@ func Main(t *testing.T, h Harness) {
 	wall := time.Duration(envU("VERIF_WALL", 3600)) * time.Second
 	maxViol := int(envU("VERIF_MAXVIOL", 6))
 	replayDir := os.Getenv("VERIF_REPLAY_DIR")
+	memLimit := envU("VERIF_MEMLIMIT", 1<<30)
 	wo.Seed, wo.From, wo.To = seed, from, to
 	hashes := map[uint64]struct{}{}
 	perSig := map[string]int{}
@@ -498,6 +500,15 @@ func Main(t *testing.T, h Harness) {
 				oneRun(i)
 			}
 		})
+		// Goroutines that a run leaves blocked for good (a wedged component: that is what some runs are about)
+		// can never be reclaimed, nor can what they hold. A worker that has grown beyond its allowance hands
+		// the rest of its range back to the driver, which continues in a fresh process.
+		var ms runtime.MemStats
+		runtime.ReadMemStats(&ms)
+		if ms.Sys > memLimit && i < to {
+			wo.Truncated = true
+			break
+		}
 	}
 	if mp := os.Getenv("VERIF_MEMPROFILE"); mp != "" {
 		// development aid: where does a long-running worker keep its memory?
